@@ -57,7 +57,7 @@ theorem foldMax_eq_minMax (fs : List Size) : fs.foldl foldMax 0 = minMax fs := b
 
 theorem resolve_eq (d : Nat) (fs : List Size) :
     resolve d fs =
-      if minMax fs < maxMin fs then .error (minMax fs) (maxMin fs)
+      if minMax fs > 0 ∧ minMax fs < maxMin fs then .error (minMax fs) (maxMin fs)
       else .ok (clamp d (maxMin fs) (minMax fs)) := by
   unfold resolve
   simp only [foldMin_eq_maxMin, foldMax_eq_minMax]
@@ -70,7 +70,8 @@ theorem resolve_eq (d : Nat) (fs : List Size) :
     all_goals omega
 
 theorem resolve_ok_iff (d : Nat) (fs : List Size) (s : Nat) :
-    resolve d fs = .ok s ↔ maxMin fs ≤ minMax fs ∧ s = clamp d (maxMin fs) (minMax fs) := by
+    resolve d fs = .ok s ↔
+      (minMax fs = 0 ∨ maxMin fs ≤ minMax fs) ∧ s = clamp d (maxMin fs) (minMax fs) := by
   rw [resolve_eq]
   split
   · constructor
@@ -82,17 +83,24 @@ theorem resolve_ok_iff (d : Nat) (fs : List Size) (s : Nat) :
     · rintro ⟨_, rfl⟩; rfl
 
 theorem resolve_error_iff (d : Nat) (fs : List Size) (a b : Nat) :
-    resolve d fs = .error a b ↔ minMax fs < maxMin fs ∧ a = minMax fs ∧ b = maxMin fs := by
+    resolve d fs = .error a b ↔
+      (minMax fs ≠ 0 ∧ minMax fs < maxMin fs) ∧ a = minMax fs ∧ b = maxMin fs := by
   rw [resolve_eq]
   split
   · constructor
     · intro h
       have := Res.error.inj h
-      exact ⟨by assumption, this.1.symm, this.2.symm⟩
+      exact ⟨by omega, this.1.symm, this.2.symm⟩
     · rintro ⟨_, rfl, rfl⟩; rfl
   · constructor
     · intro h; cases h
     · rintro ⟨h, _⟩; omega
+
+/-- no function gives a maximum: never rejected, the default is only raised to the largest minimum -/
+theorem resolve_no_max (d : Nat) (fs : List Size) (h : minMax fs = 0) :
+    resolve d fs = .ok (max d (maxMin fs)) := by
+  rw [resolve_eq, h]
+  simp [clamp]
 
 theorem clamp_pos {d lo hi : Nat} (hd : 0 < d) : 0 < clamp d lo hi := by
   unfold clamp
